@@ -3,7 +3,7 @@
 A variable-length array or alloca() whose size is not bounded by a dominating guard lets the peer choose how much stack the
 receive path consumes; a large frame crashes the process (stack overflow), which no exception handler can catch."""
 from .facts import AnalysisBroken, extract, probe_unit
-from . import q, ival
+from . import q, ival, reent
 
 STACK_LIMIT = 64 * 1024
 
@@ -75,3 +75,125 @@ def run(ctx, prog, rid, entries, follow, what='receive path'):
                    (what_, f.path(size)), where=f.loc(sid))
     ctx.stats[rid + '.functions_scanned'] = len(seen)
     ctx.stats[rid + '.stack_allocations'] = n
+
+
+# ---- A9g: narrowing of input-derived wide integers ---------------------------------------------
+WIDE_PARSERS = ('strtol', 'strtoll', 'strtoul', 'strtoull', 'atol', 'atoll', 'std::stol', 'std::stoll', 'std::stoul', 'std::stoull', 'strtoimax', 'strtoumax')
+
+
+def narrowings(f):
+    """(call stmt, cast stmt, from-range, to-range) where the result of a wide text-to-integer conversion is implicitly narrowed at once"""
+    from .ival import type_range, ctype
+    out = []
+    for st in f.stmts:
+        if not st or st['k'] != 'CallExpr':
+            continue
+        cal = st.get('callee') or ''
+        if not (cal in WIDE_PARSERS or cal.split('<')[0] in WIDE_PARSERS):
+            continue
+        fr = type_range(ctype(st))
+        cur = st['i']
+        while True:
+            p = f.parent.get(cur)
+            ps = f.s(p) if p is not None else None
+            if ps is None or ps['k'] not in ('ImplicitCastExpr', 'ParenExpr', 'CStyleCastExpr', 'CXXStaticCastExpr', 'CXXFunctionalCastExpr'):
+                break
+            tr = type_range(ctype(ps))
+            if ps['k'] == 'ImplicitCastExpr' and ps.get('ck') == 'IntegralCast' and fr and tr and (tr[0] > fr[0] or tr[1] < fr[1]):
+                out.append((st, ps, fr, tr))
+                break
+            cur = p
+    return out
+
+
+def narrowing_selfcheck():
+    pp = extract([], extra_units=[probe_unit()])
+    got = {}
+    for f in pp.funcs.values():
+        if f.name.startswith('verif_probe::narrow_'):
+            got[f.name.split('::')[-1]] = len(narrowings(f))
+    if got != {'narrow_unchecked': 1, 'narrow_checked': 0}:
+        raise AnalysisBroken('narrowing detector self-check failed: %s' % got)
+
+
+def run_narrowing(ctx, prog, rid, entries, follow, what='input path'):
+    ctx.rule(rid, 'A9g: on the %s the result of a wide text-to-integer conversion (strtol & co., 64-bit) is never implicitly narrowed before it was range-checked — '
+             'otherwise values beyond the narrow type wrap modulo 2^32 and pass the later bounds tests as a different number' % what, floor=1)
+    narrowing_selfcheck()
+    ctx.ob(rid, 'probes', True, 'detector classified its probes (unchecked narrowing found, checked conversion accepted)')
+    seen = {}
+    work = list(entries)
+    while work:
+        f = work.pop()
+        if f.key in seen:
+            continue
+        seen[f.key] = f
+        for g in prog.funcs.values():
+            if g.parent_usr == f.usr and g.key not in seen:
+                work.append(g)
+        for c in f.calls():
+            for g in reent.callee_funcs(prog, c):
+                if g.key not in seen and follow(g):
+                    work.append(g)
+    for f in seen.values():
+        for call, cast, fr, tr in narrowings(f):
+            ctx.ob(rid, '%s|%s->%s' % (f.name, call.get('callee'), ctype_name(cast)), False,
+                   'the %d-bit result of %s() is implicitly converted to %s: an input such as 4294967296 + k is taken for k' %
+                   (64, call.get('callee'), ctype_name(cast)), where=f.loc(call['i']))
+    ctx.stats[rid + '.functions_scanned'] = len(seen)
+
+
+def ctype_name(st):
+    return st.get('ct') or st.get('t') or '?'
+
+
+NARROW_INT = ('int', 'unsigned int', 'short', 'unsigned short', 'char', 'signed char', 'unsigned char')
+
+
+def reachable(prog, entries, follow):
+    seen = {}
+    work = list(entries)
+    while work:
+        f = work.pop()
+        if f.key in seen:
+            continue
+        seen[f.key] = f
+        for g in prog.funcs.values():
+            if g.parent_usr == f.usr and g.key not in seen:
+                work.append(g)
+        for c in f.calls():
+            for g in reent.callee_funcs(prog, c):
+                if g.key not in seen and follow(g):
+                    work.append(g)
+    return seen
+
+
+def run_json_narrowing(ctx, prog, rid, entries, follow, what='receive path'):
+    ctx.rule(rid, 'A9g (JSON): on the %s a JSON number (stored as a 64-bit integer) is never read with get<T>() for a narrower integer T unless a dominating test bounds a '
+             'wide reading of the same value — nlohmann::json converts with a plain static_cast, so 4294967297 read as int is 1' % what, floor=1)
+    seen = reachable(prog, entries, follow)
+    n = 0
+    for f in seen.values():
+        for st in f.stmts:
+            if not st or st['k'] != 'CXXMemberCallExpr' or st.get('fn') not in ('get', 'get_to') or 'basic_json' not in st.get('cls', ''):
+                continue
+            ct = (st.get('ct') or '').replace('const ', '')
+            if ct not in NARROW_INT:
+                continue
+            n += 1
+            obj = f.path(st.get('obj')) if 'obj' in st else '?'
+            # accepted: a dominating comparison over a local that holds a 64-bit reading of the same object
+            ok = False
+            for cond, k, b in f.cfg.controlling_branches(q.pt(f, st)):
+                for x in f.walk(cond):
+                    sx = f.stmts[x]
+                    if sx['k'] == 'DeclRefExpr' and sx.get('dk') == 'Var':
+                        from . import rd
+                        for d in rd.local_defs(f, sx['d']):
+                            if d['rhs'] is not None and any(c.get('fn') == 'get' and (c.get('ct') or '') in ('long', 'unsigned long', 'long long', 'unsigned long long') and
+                                                            'obj' in c and f.path(c['obj']) == obj for c in q.subtree_calls(f, d['rhs'])):
+                                ok = True
+            ctx.ob(rid, '%s|get<%s>(%s)' % (f.name, ct, obj), ok, 'narrow read behind a range test of the 64-bit value' if ok else
+                   '%s.get<%s>() narrows a 64-bit JSON number without a range test: an id such as 4294967297 is taken for 1 and matched to the wrong pending request' % (obj, ct),
+                   where=f.loc(st['i']))
+    ctx.ob(rid, 'scan', True, '%d functions on the %s scanned, %d narrow integer reads' % (len(seen), what, n))
